@@ -66,23 +66,27 @@ class Pipe:
         identifier = object()
         throughput = throughput if throughput is not None else self.throughput
         self._add_subscriber(identifier, throughput)
-        while transferred < total:
-            window_start = time.now
-            window_throughput = throughput * self._throughput_scale
-            # Try to delay until we have transferred everything.
-            # Be prepared to get interrupted if throughput changes.
-            with self._congested.__subscription__():
-                delay = (total - transferred) / window_throughput
-                if delay > 0:
-                    await suspend(delay=delay, until=None)
-                else:
-                    await postpone()
-                # At this point, we have been suspended for as long as calculated.
-                # Barring float *imprecision* we have transferred the desired volume.
-                transferred = total
-            window_end = time.now
-            transferred += (window_end - window_start) * window_throughput
-        self._del_subscriber(identifier)
+        try:
+            while transferred < total:
+                window_start = time.now
+                window_throughput = throughput * self._throughput_scale
+                # Try to delay until we have transferred everything.
+                # Be prepared to get interrupted if throughput changes.
+                with self._congested.__subscription__():
+                    delay = (total - transferred) / window_throughput
+                    if delay > 0:
+                        await suspend(delay=delay, until=None)
+                    else:
+                        await postpone()
+                    # At this point, we have been suspended for as long as
+                    # calculated. Barring float *imprecision* we have transferred
+                    # the desired volume.
+                    transferred = total
+                window_end = time.now
+                transferred += (window_end - window_start) * window_throughput
+        finally:
+            # release our share even if we are cancelled or interrupted
+            self._del_subscriber(identifier)
 
     def _add_subscriber(self, identifier, throughput):
         self._subscriptions[identifier] = throughput
